@@ -439,6 +439,19 @@ pub fn run(ctx: &mut Ctx) -> Report {
 			a.hash(&mut x);
 			x.finish()
 		};
+		// the name an algorithm prints as (it ends up in the Debug text of every key pair and
+		// public key): the name of its own constant
+		for a in &algs {
+			let want = match alg_name(a) {
+				"rsaSha256" => "PKCS_RSA_SHA256", "rsaSha384" => "PKCS_RSA_SHA384", "rsaSha512" => "PKCS_RSA_SHA512",
+				"ecdsaP256" => "PKCS_ECDSA_P256_SHA256", "ecdsaP384" => "PKCS_ECDSA_P384_SHA384",
+				"ecdsaP521" => "PKCS_ECDSA_P521_SHA512", "ed25519" => "PKCS_ED25519", _ => "?",
+			};
+			s.rep.case(&format!("alg-debug {}", alg_name(a)), true);
+			if format!("{:?}", a) != want {
+				s.rep.violate("C11:alg-debug-name", "an algorithm constant prints under another name than its own", format!("{} prints as {:?}", alg_name(a), a));
+			}
+		}
 		for a in &algs {
 			for b in &algs {
 				let eq = a == b;
